@@ -391,6 +391,54 @@ func genC05(cs *CaseSet, rng *Rng, tier string, dir string) {
 		cs.Add(Case{Kind: "account-edit-batch", Ops: []Op{mkOp(4, "update-user-batch", b[:], init, enc)},
 			Obs: [][][]byte{{{d}, final}}, NonTrivial: n >= 2 && b != zero && b != all})
 	}
+	// odd target kinds: an alias whose target is gone (a symbolic link that resolves to nothing).  It is neither a file
+	// nor a folder, so no privilege can be the governing one - an account that may delete or move NEITHER files NOR
+	// folders must not be able to make it disappear or move it
+	for k := 0; k < 24; k++ {
+		serial++
+		tgt := filepath.Join(root, fmt.Sprintf("gone%d.txt", serial))
+		alias := fmt.Sprintf("dangling%d", serial)
+		must(os.WriteFile(tgt, []byte("x"), 0644))
+		must(os.Symlink(tgt, filepath.Join(root, alias)))
+		must(os.Remove(tgt))
+		var b hotline.AccessBitmap
+		move := k%2 == 1
+		if k%4 < 2 {
+			b = all
+			lack := []int{0, 6}
+			if move {
+				lack = []int{4, 8}
+			}
+			for _, p := range lack {
+				b[p/8] &^= 1 << (7 - p%8)
+			}
+		}
+		cc, _ := env.NewClient("~c~", b, "10.5.0.1:1")
+		env.TakeSent()
+		before := stateHash(env)
+		var req c05Req
+		if move {
+			req = c05Req{mobius.HandleMoveFile, hotline.TranMoveFile, []hotline.Field{fn(hotline.FieldFileName, []byte(alias)), fn(hotline.FieldFileNewPath, pathOf("dest"))}}
+		} else {
+			req = c05Req{mobius.HandleDeleteFile, hotline.TranDeleteFile, []hotline.Field{fn(hotline.FieldFileName, []byte(alias))}}
+		}
+		t := hotline.NewTransaction(req.typ, cc.ID, req.fields...)
+		callHandler(req.h, cc, &t)
+		env.TakeSent()
+		env.Srv.ClientMgr.Delete(cc.ID)
+		changed := byte(0)
+		if _, err := os.Lstat(filepath.Join(root, alias)); err != nil || stateHash(env) != before {
+			changed = 1
+		}
+		os.Remove(filepath.Join(root, alias))
+		os.Remove(filepath.Join(root, "dest", alias))
+		kind := byte(0)
+		if move {
+			kind = 1
+		}
+		cs.Add(Case{Kind: "dangling-alias", Ops: []Op{mkOp(6, "unprivileged-request-on-dangling-alias", []byte{kind}, b[:])},
+			Obs: [][][]byte{{{changed}}}, NonTrivial: true})
+	}
 	// field contents: crafted path fields ("." / ".." items, separators inside items, declared count off by one)
 	// against the upload-folder and drop-box rules; the EFFECT is observed (a drop box's content revealed, an
 	// upload granted into a directory that is neither an upload folder nor a drop box)
